@@ -36,7 +36,8 @@ def _val(kind):
     return st.one_of(st.none(), _VALS[kind], _VALS[kind], _VALS[kind]).map(enc)
 
 
-TEMPLATES = ["select_bare", "insert_typed", "update_where", "delete_where", "in_list", "like", "with_variable", "with_literal_noise", "ctas"]
+HOSTILE = ["a\\b", "C:\\temp\\new", "\\", "it's", "O'Brien", "nope') or ('1'='1", "%s", "%(x)s", "$x", "a\nb", "\\n", "?", "';--", "100%", "", "plain"]
+TEMPLATES = ["select_bare", "insert_typed", "update_where", "delete_where", "in_list", "in_list_str", "like", "with_variable", "with_literal_noise", "ctas"]
 
 
 @st.composite
@@ -60,6 +61,12 @@ def _case(draw, tier):
     elif tpl == "in_list":
         case["pre"] = draw(st.lists(st.tuples(st.integers(0, 8), st.just("")).map(list), min_size=1, max_size=6))
         case["list"] = draw(st.lists(st.integers(0, 8), min_size=1, max_size=4))
+    elif tpl == "in_list_str":
+        # (the rows are put there with literals, so they hold no `$`: `$name` inside a literal is a listed C15 finding; bound elements may)
+        pool = draw(st.lists(st.one_of(st.sampled_from([h for h in HOSTILE if "$" not in h]), gv.text(6)), min_size=2, max_size=6))
+        case["pre"] = [[i, v] for i, v in enumerate(pool)]
+        case["slist"] = draw(st.lists(st.one_of(st.sampled_from(pool), st.sampled_from(HOSTILE)), min_size=1, max_size=4))
+        case["as_tuple"] = draw(st.booleans())
     elif tpl == "like":
         case["pre"] = draw(st.lists(st.tuples(st.integers(0, 5), st.text(alphabet="ab%_x", max_size=4)).map(list), min_size=1, max_size=5))
         case["pattern"] = draw(st.text(alphabet="ab%_x", max_size=4))
@@ -196,7 +203,7 @@ def run_bind(case, ctx: Ctx) -> None:
                     g, w = got.rows[ri][j + 1], want.get(c)
                     if not same_value(g, w):
                         ctx.fail(sig(f"wrong-value|{k}"), f"bound {w!r} into {c} {TYPE[c]}, read {g!r}")
-        elif tpl in ("update_where", "delete_where", "in_list", "like"):
+        elif tpl in ("update_where", "delete_where", "in_list", "in_list_str", "like"):
             pre = case["pre"]
             for c_ in (cur, tcur):
                 c_.execute("INSERT INTO T (K, S) VALUES " + ", ".join(f"({int(k)}, {sql_str(s)})" for k, s in pre))
@@ -224,6 +231,25 @@ def run_bind(case, ctx: Ctx) -> None:
                 model = None
                 want_status = [(k,) for k in sorted(k for k, _ in pre if k in case["list"])]
                 ctx.nontrivial = True
+            elif tpl == "in_list_str":
+                items = list(case["slist"])
+                if not items or any(not isinstance(x, str) for x in items):
+                    raise InvalidCase()
+                if style in ("qmark", "pyformat_dict"):
+                    # one placeholder per element (these styles bind scalars only)
+                    vals = items
+                    ph = ", ".join(_ph(style, len(items)))
+                else:
+                    vals = [tuple(items) if case.get("as_tuple") else items]
+                    ph = _ph(style, 1)[0]
+                sql = f"SELECT K FROM T WHERE S IN ({ph}) ORDER BY K"
+                lit = None if any("$" in x for x in items) else f"SELECT K FROM T WHERE S IN ({', '.join(sql_lit(x) for x in items)}) ORDER BY K"
+                if any(not isinstance(s_, str) or "$" in s_ for _, s_ in pre):
+                    raise InvalidCase()
+                model = None
+                want_status = [(k,) for k, s_ in sorted(pre) if s_ in items]
+                ctx.nontrivial = any(ch in x for x in items for ch in "'\\\n%$")
+                ctx.cls("in-list:strings", "in-list:one-sequence-parameter" if len(vals) == 1 and not isinstance(vals[0], str) else "in-list:one-placeholder-per-element")
             else:
                 vals = [case["pattern"]]
                 ph = _ph(style, 1)
@@ -313,8 +339,8 @@ def _many_case(draw, tier):
     n = draw(st.integers(0, 5))
     return {
         "style": style,
-        "sets": [[draw(st.integers(0, 9)), draw(_val("str")), draw(_val("int"))] for _ in range(n)],
-        "stmt": draw(st.sampled_from(["insert", "update", "delete"])),
+        "sets": [[draw(st.integers(0, 9)), draw(st.one_of(_val("str"), st.sampled_from(HOSTILE))), draw(_val("int"))] for _ in range(n)],
+        "stmt": draw(st.sampled_from(["insert", "insert_nocols", "insert_lower_multiline", "update", "delete"])),
     }
 
 
@@ -332,6 +358,10 @@ def run_many(case, ctx: Ctx) -> None:
         sets = [[dec(v) for v in s] for s in case["sets"]]
         if case["stmt"] == "insert":
             sql = f"INSERT INTO T (K, S, I) VALUES ({ph[0]}, {ph[1]}, {ph[2]})"
+        elif case["stmt"] == "insert_nocols":
+            sql = f"INSERT INTO T VALUES ({ph[0]}, {ph[1]}, {ph[2]})"
+        elif case["stmt"] == "insert_lower_multiline":
+            sql = f"insert into t (k, s, i)\n  values\n  ({ph[0]},\n   {ph[1]}, {ph[2]})\n"
         elif case["stmt"] == "update":
             sql = f"UPDATE T SET S = {ph[1]}, I = {ph[2]} WHERE K = {ph[0]}"
             sets = [[s[1], s[2], s[0]] if style != "pyformat_dict" else s for s in sets] if False else sets
@@ -383,7 +413,7 @@ PROP = Prop(
             rule=(
                 "Hypothesis draws paramstyle {pyformat seq, pyformat dict, format, qmark} (configured before connect; flipped on the module "
                 "after connect in half the cases) x template {SELECT %s.., INSERT into typed columns + read back, UPDATE..SET c=%s WHERE k=%s, "
-                "DELETE WHERE c=%s, IN (list), LIKE beside an escaped %%, beside a $session_variable, beside ?/% inside literals and "
+                "DELETE WHERE c=%s, IN (list of ints; list/tuple of hostile strings as one parameter or one placeholder per element), LIKE beside an escaped %%, beside a $session_variable, beside ?/% inside literals and "
                 "comments, CTAS} x values over the adversarial alphabet (quotes, backslashes, newlines, %, $, ?, ;, --, /*, injection "
                 "strings) and typed edge values. Oracles: value round trip; model of the DML effect; differential against the same "
                 "statement with harness-rendered literals on a twin instance; object listing unchanged. "
@@ -397,9 +427,9 @@ PROP = Prop(
             name="executemany",
             strategy=_many_case,
             run=run_many,
-            rule="executemany(cmd, seq) over 0-5 parameter sets (insert/update/delete) vs a loop of execute(cmd, p) on a twin; final states compared.",
-            quick=60,
-            thorough=600,
+            rule="executemany(cmd, seq) over 0-5 parameter sets with hostile strings (backslashes, quotes, %, $, newlines) for insert (with/without column list, lower-case multi-line)/update/delete vs a loop of execute(cmd, p) on a twin; final states compared.",
+            quick=100,
+            thorough=800,
             quick_shards=4,
             budget_quick=40,
         ),
